@@ -7,6 +7,7 @@ where message boundaries are.
 import random
 
 from .. import cases, oracles, probes
+from .. import trace as TR
 from . import _strict
 
 PROPERTY = "C05"
@@ -50,6 +51,17 @@ def run_shard(shard, rec):
                 rec.case(fc.sig, nontrivial=True)
                 for rule, mech, msg in oracles.length_cc(fc, ref, t):
                     rec.violation(rule, mech, f"{fc.short()}\n{msg}", fc.replay())
+                # the same truncation / suffix from another kind of source (sized ones included): same outcome, same
+                # surplus bytes, same command code
+                if fc.fault["kind"] == "suffix" or rec.evaluations % 7 == 0:
+                    kinds = TR.CountingSource.KINDS[1:]
+                    kind = kinds[rec.evaluations % len(kinds)]
+                    t2 = TR.run(fc.t, fc.d, strict=True, cc=fc.cc, enc=fc.enc, source_kind=kind)
+                    rec.count("other_source_kind_runs")
+                    key = lambda o: (o[0], {k: v for k, v in o[1].items() if k != "str"}) if o[0] == "constraint" else o  # (the first decode may be rooted elsewhere: texts differ)
+                    if key(t2.outcome) != key(t.outcome) or len(t2.events) != len(t.events):
+                        show = lambda o: (o[0], o[1].hex() if isinstance(o[1], bytes) else o[1]) + tuple(o[2:]) if o[0] == "superfluous" else o[:2]
+                        rec.violation("source-kind", f"{kind}:{t.outcome[0]}", f"{fc.short()}\nfrom a {kind} source: {show(t2.outcome)} after {len(t2.events)} events; from a counting iterator: {show(t.outcome)} after {len(t.events)} events", dict(fc.replay(), source=kind))
                 if t.unstable:
                     rec.violation("surplus-not-carried", "read-twice", f"{fc.short()}\n{t.unstable}", fc.replay())
                 if t.outcome[0] == "superfluous":
@@ -69,7 +81,7 @@ def run_shard(shard, rec):
 
 def finish(m, tier):
     inc = probes.missing(m, ANCHORS)
-    for k in ("ref_depleted", "ref_superfluous", "empty_inputs", "stream_cut_at_boundary", "stream_cut_inside", "cc_attr_set", "cc_attr_none"):
+    for k in ("ref_depleted", "ref_superfluous", "empty_inputs", "stream_cut_at_boundary", "stream_cut_inside", "cc_attr_set", "cc_attr_none", "other_source_kind_runs"):
         if not m["counters"].get(k):
             inc.append(f"no case of {k}")
     return dict(inconclusive=inc)
